@@ -22,6 +22,9 @@ import GqlProofs.EndToEnd.Loaded
 import GqlProofs.EndToEnd.ParsedSchemaTree
 import GqlProofs.EndToEnd.LoadedWP
 import GqlProofs.Validate.OverlapIds
+import GqlProofs.EndToEnd.RootKeys
+import GqlProofs.EndToEnd.ParsedSelStarts
+import GqlProofs.EndToEnd.SourceOutcome
 /-
   C08 — validation accepts exactly what the rules allow.
 
@@ -2165,3 +2168,372 @@ theorem C08_overlap_unused_fragment_counterexample :
   refine ⟨by decide +kernel, by decide +kernel, by decide +kernel, by decide +kernel, by decide +kernel⟩
 
 #print axioms C08_overlap_unused_fragment_counterexample
+
+/- ======================= C08 FOR THE WHOLE DEFAULT RULE SET, OVER SOURCE TEXTS ======================= -/
+section C08Final
+open Gql Gql.Validate Gql.Validate.Rules Gql.EndToEnd Gql.Load
+
+/-- `Spec.specValid` as the conjunction of its 28 predicates -/
+theorem C08_specValid_iff (s : Schema) (d : QueryDoc) :
+    Spec.specValid s d = true ↔
+    (Spec.operationNameUniqueness d = true ∧ Spec.loneAnonymousOperation d = true ∧ Spec.singleRootField s d = true ∧
+     Spec.knownRootType s d = true ∧ Spec.fieldSelections s d = true ∧ Spec.fieldSelectionMerging s d = true ∧
+     Spec.leafFieldSelections s d = true ∧
+     Spec.argumentNames s d = true ∧ Spec.argumentUniqueness s d = true ∧ Spec.requiredArguments s d = true ∧
+     Spec.fragmentNameUniqueness d = true ∧ Spec.fragmentSpreadTypeExistence s d = true ∧
+     Spec.fragmentsOnCompositeTypes s d = true ∧ Spec.fragmentsMustBeUsed d = true ∧
+     Spec.fragmentSpreadTargetDefined d = true ∧ Spec.noFragmentCycles d = true ∧
+     Spec.fragmentSpreadIsPossible s d = true ∧
+     (Spec.valuesOfCorrectType s d && Spec.oneOfVariablesNonNull s d) = true ∧ Spec.inputObjectFieldUniqueness s d = true ∧
+     Spec.directivesAreDefined s d = true ∧ Spec.directivesInValidLocations s d = true ∧
+     Spec.directivesUniquePerLocation s d = true ∧ Spec.variableUniqueness d = true ∧
+     Spec.variablesAreInputTypes s d = true ∧ Spec.allVariableUsesDefined s d = true ∧
+     Spec.allVariablesUsed s d = true ∧ Spec.allVariableUsagesAllowed s d = true ∧ Spec.maxIntrospectionDepth d = true) := by
+  simp only [Spec.specValid, Spec.specVerdicts]
+  simp [List.all]
+
+/-- the prerequisites under which §5.3.2 is judged are specification predicates -/
+theorem C08_mergingJudged_of_spec {s : Schema} {d : QueryDoc}
+    (hdef : Spec.fragmentSpreadTargetDefined d = true) (hacyclic : Spec.noFragmentCycles d = true)
+    (htc : Spec.fragmentSpreadTypeExistence s d = true) (hcomp : Spec.fragmentsOnCompositeTypes s d = true)
+    (hfs : Spec.fieldSelections s d = true) (hroot : Spec.knownRootType s d = true) : Spec.mergingJudged s d = true := by
+  unfold Spec.mergingJudged
+  unfold Spec.knownRootType at hroot
+  simp only [hdef, hacyclic, htc, hcomp, hfs, hroot, Bool.and_self]
+
+/-- hazard 4 of SingleFieldSubscriptions (`rootKeysConsistent`: collected root fields with one response
+    key have one field name) is a consequence of §5.3.2 and the prerequisites under which it is judged -/
+theorem C08_rootKeysConsistent_of_merging (s : Schema) (d : QueryDoc)
+    (hdef : Spec.fragmentSpreadTargetDefined d = true) (hacyclic : Spec.noFragmentCycles d = true)
+    (htc : Spec.fragmentSpreadTypeExistence s d = true) (hcomp : Spec.fragmentsOnCompositeTypes s d = true)
+    (hfs : Spec.fieldSelections s d = true) (hroot : Spec.knownRootType s d = true)
+    (hm : Spec.fieldSelectionMerging s d = true) : rootKeysConsistent s d = true :=
+  rootKeysConsistent_of_merging s d (C08_mergingJudged_of_spec hdef hacyclic htc hcomp hfs hroot) hm
+
+/-- hazard 3 (`subscriptionsSelectRoot`: every subscription collects at least one root field) is part of
+    the specification predicate §5.2.3.1 itself ("exactly one entry") -/
+theorem C08_subscriptionsSelectRoot_of_spec (s : Schema) (d : QueryDoc) (h : Spec.singleRootField s d = true) :
+    subscriptionsSelectRoot s d = true := by
+  unfold subscriptionsSelectRoot
+  rw [List.all_eq_true]
+  intro op hop
+  by_cases hk : op.op = Spec.kwSubscription
+  · cases hobj : Spec.rootDef s op.op with
+    | none => simp
+    | some obj =>
+      have h1 := (singleRootField_iff s d).1 h op hop hk obj hobj
+      cases hfs : Spec.collectRootFields s d obj op.sel with
+      | nil => rw [hfs] at h1; exact absurd h1 (by decide)
+      | cons f fs => simp [hfs]
+  · simp [hk]
+
+/-- the hypotheses of the capstone that are invariants of parser output (document side) or of loader
+    output (schema side): `C08Hyps` without its four semantic fields `wellParented`, `selectRoot`,
+    `rootKeys`, `defaultedLocations` -/
+structure C08BaseHyps (s : Schema) (d : QueryDoc) : Prop where
+  kinds : ∀ op ∈ d.ops, op.op ∈ parserOpKinds
+  outputTypes : Spec.fieldTypesAreOutputTypes s d = true
+  noEmptyTypeName : s.type? [] = none
+  possibleOK : possibleOK s = true
+  subscriptionRoot : subscriptionRootExact s = true
+  valuesShaped : valuesShaped s d = true
+  constDefaults : constDefaults d = true
+  typeConds : ∀ f ∈ d.frags, f.typeCond ≠ []
+  inputPositions : inputPositionsPlain s = true
+  schemaOK : schemaOK s = true
+  argTypes : Gql.Spec.ClosedArgTypes s
+  directiveArgTypes : Gql.Spec.ClosedDirectiveArgTypes s
+  numLiterals : numLiteralsOK s d = true
+  leaves : leavesWellFormed s d = true
+  usePos : usePosDistinct s d = true
+
+theorem C08BaseHyps.toHyps {s : Schema} {d : QueryDoc} (B : C08BaseHyps s d) (hwp : Spec.wellParented s d = true)
+    (hsel : subscriptionsSelectRoot s d = true) (hrk : rootKeysConsistent s d = true)
+    (hdl : defaultedLocationsHarmless s d = true) : C08Hyps s d :=
+  { kinds := B.kinds, wellParented := hwp, outputTypes := B.outputTypes, noEmptyTypeName := B.noEmptyTypeName,
+    possibleOK := B.possibleOK, subscriptionRoot := B.subscriptionRoot, valuesShaped := B.valuesShaped,
+    constDefaults := B.constDefaults, typeConds := B.typeConds, selectRoot := hsel, rootKeys := hrk,
+    inputPositions := B.inputPositions, defaultedLocations := hdl, schemaOK := B.schemaOK, argTypes := B.argTypes,
+    directiveArgTypes := B.directiveArgTypes, numLiterals := B.numLiterals, leaves := B.leaves, usePos := B.usePos }
+
+theorem C08Hyps.toBase {s : Schema} {d : QueryDoc} (h : C08Hyps s d) : C08BaseHyps s d :=
+  { kinds := h.kinds, outputTypes := h.outputTypes, noEmptyTypeName := h.noEmptyTypeName,
+    possibleOK := h.possibleOK, subscriptionRoot := h.subscriptionRoot, valuesShaped := h.valuesShaped,
+    constDefaults := h.constDefaults, typeConds := h.typeConds,
+    inputPositions := h.inputPositions, schemaOK := h.schemaOK, argTypes := h.argTypes,
+    directiveArgTypes := h.directiveArgTypes, numLiterals := h.numLiterals, leaves := h.leaves, usePos := h.usePos }
+
+/-- **no invalid request passes** (trees): a document on which the 27 default rules report nothing
+    satisfies all 28 specification predicates.  Neither `Spec.wellParented` nor `rootKeysConsistent` nor
+    `defaultedLocationsHarmless` is assumed: the first follows from the silence of five rules
+    (`C08_wellParented_of_rules`), the second from the silence of OverlappingFieldsCanBeMerged
+    (`C08_rootKeysConsistent_of_merging`), and the recorded finding about VariablesInAllowedPosition only
+    makes the rule report MORE than the specification (`C08_VariablesInAllowedPosition_complete`).
+    Left: `subscriptionsSelectRoot`. -/
+theorem C08_default_rules_sound (s : Schema) (d : QueryDoc) (B : C08BaseHyps s d) (W : WPSchema s)
+    (ho : C08OverlapHyps s d) (hsel : subscriptionsSelectRoot s d = true)
+    (hv : validate defaultRules s d = .ok []) : Spec.specValid s d = true := by
+  rw [C08_all_rules_eq_default, C08_rule_list_silent_iff c08AllRules s d (by decide)] at hv
+  simp only [c08AllRules, List.mem_cons, List.not_mem_nil, or_false, forall_eq_or_imp, forall_eq] at hv
+  obtain ⟨r1, r2, r3, r4, r5, r6, r7, r8, r9, r10, r11, r12, r13, ro, r14, r15, r16, r17, r18, r19, r20, r21, r22, r23,
+    rv, r24, r25⟩ := hv
+  have hwp := C08_wellParented_of_rules W B.noEmptyTypeName d r6 r7 r2 r1 r16
+  have lone := (C08_LoneAnonymousOperation s d).1 r8
+  have opNames := (C08_UniqueOperationNames s d lone).1 r22
+  have varUniq := (C08_UniqueVariableNames s d).1 r23
+  have fragUniq := (C08_UniqueFragmentNames s d).1 r20
+  have spreadsDef := (C08_KnownFragmentNames s d).1 r5
+  have dirs := (C08_KnownDirectives s d B.kinds).1 r4
+  have cycles := (C08_NoFragmentCycles s d fragUniq).1 r10
+  have types := (C08_KnownTypeNames_VariablesAreInputTypes s d).1 ⟨r7, r24⟩
+  have hroot := (C08_KnownRootType s d).1 r6
+  have hfs := (C08_FieldsOnCorrectType s d hwp).1 r1
+  have hleaf := (C08_ScalarLeafs s d hwp B.outputTypes).1 r16
+  have hargs := (C08_UniqueArgumentNames s d B.kinds).1 r18
+  have hcomp := (C08_FragmentsOnCompositeTypes s d B.noEmptyTypeName).1 r2
+  have hused := (C08_NoUnusedFragments s d cycles fragUniq).1 r12
+  have hinput := (C08_UniqueInputFieldNames s d B.valuesShaped).1 r21
+  have hm := (C08_OverlappingFieldsCanBeMerged s d ho cycles fragUniq hwp hroot spreadsDef types.1 hcomp hfs hleaf hused
+    hargs hinput).1 ro
+  have hrk := C08_rootKeysConsistent_of_merging s d spreadsDef cycles types.1 hcomp hfs hroot hm
+  rw [C08_specValid_iff]
+  exact ⟨opNames, lone,
+    (C08_SingleFieldSubscriptions s d B.subscriptionRoot spreadsDef B.typeConds hsel hrk).1 r17,
+    hroot, hfs, hm, hleaf,
+    (C08_KnownArgumentNames s d hwp B.kinds).1 r3,
+    hargs,
+    (C08_ProvidedRequiredArguments s d hwp B.kinds).1 r15,
+    fragUniq, types.1, hcomp, hused, spreadsDef, cycles,
+    (C08_PossibleFragmentSpreads s d hwp B.noEmptyTypeName B.possibleOK).1 r14,
+    (C08_ValuesOfCorrectType s d hwp fragUniq B.constDefaults B.schemaOK
+      (rootsInput_of_closed s d B.argTypes B.directiveArgTypes types.2) B.numLiterals B.leaves B.usePos).1 rv,
+    hinput, dirs.1, dirs.2,
+    (C08_UniqueDirectivesPerLocation s d B.kinds dirs.1).1 r19,
+    varUniq, types.2,
+    (C08_NoUndefinedVariables s d fragUniq B.constDefaults).1 r11,
+    (C08_NoUnusedVariables s d fragUniq B.constDefaults varUniq).1 r13,
+    C08_VariablesInAllowedPosition_complete s d hwp fragUniq B.constDefaults B.inputPositions
+      (variableTypesNamed_of_exist s d B.noEmptyTypeName (variablesAreInputTypes_exist s d types.2)) r25,
+    (C08_MaxIntrospectionDepth s d cycles).1 r9⟩
+
+/-- **no valid request is rejected** (trees): a document that satisfies all 28 specification predicates
+    passes the 27 default rules — PROVIDED the recorded finding about VariablesInAllowedPosition is not
+    triggered (`defaultedLocationsHarmless`; needed: `C08_VariablesInAllowedPosition_counterexample_location_default`).
+    `Spec.wellParented`, `subscriptionsSelectRoot` and `rootKeysConsistent` follow from the specification
+    predicates. -/
+theorem C08_default_rules_complete (s : Schema) (d : QueryDoc) (B : C08BaseHyps s d) (W : WPSchema s)
+    (ho : C08OverlapHyps s d) (hdl : defaultedLocationsHarmless s d = true)
+    (hs : Spec.specValid s d = true) : validate defaultRules s d = .ok [] := by
+  have hs' := (C08_specValid_iff s d).1 hs
+  obtain ⟨_, _, root1, hroot, hfs, hm, hleaf, _, _, _, _, htc, hcomp, _, hdef, hcyc, _⟩ := hs'
+  have hwp := C08_wellParented_of_spec W d hroot htc hcomp hfs hleaf
+  have hsel := C08_subscriptionsSelectRoot_of_spec s d root1
+  have hrk := C08_rootKeysConsistent_of_merging s d hdef hcyc htc hcomp hfs hroot hm
+  exact (C08_validate_default_iff_spec s d (B.toHyps hwp hsel hrk hdl) ho).2 hs
+
+/-- **C08 for the whole default rule set** (trees): the semantic hypotheses `Spec.wellParented` and
+    `rootKeysConsistent` of `C08_validate_default_iff_spec` are discharged -/
+theorem C08_validate_default_iff_spec_base (s : Schema) (d : QueryDoc) (B : C08BaseHyps s d) (W : WPSchema s)
+    (ho : C08OverlapHyps s d) (hsel : subscriptionsSelectRoot s d = true)
+    (hdl : defaultedLocationsHarmless s d = true) :
+    validate defaultRules s d = .ok [] ↔ Spec.specValid s d = true :=
+  ⟨C08_default_rules_sound s d B W ho hsel, C08_default_rules_complete s d B W ho hdl⟩
+
+/-! ### from source texts -/
+
+/-- everything the parser and the loader guarantee, at once: schema sources → `ParseSchemas` → `load`,
+    query source → `parseQuery` -/
+theorem C08_hyps_of_sources {Ls : Nat} {srcs : List (Bool × Bytes)} {sd : SchemaDoc} {s : Schema}
+    (hsrc : ∀ src ∈ srcs, Lexer.Utf8.valid src.2) (hps : Parser.parseSchemas Ls srcs = .ok sd)
+    (hl : load sd = .ok s) (hprel : PreludeDeclared sd)
+    {L : Nat} {inp : Bytes} {d : QueryDoc} (hp : Parser.parseQuery L inp = .ok d) :
+    C08BaseHyps s d ∧ WPSchema s ∧ C08OverlapHyps s d := by
+  have T := parseSchemas_treeHyps hsrc hps
+  have LH := loaded_hyps hl hprel T.scalars T.enums T.names
+  refine ⟨?_, loaded_wpSchema hl hprel T.unions, ?_⟩
+  · exact
+      { kinds := parsed_kinds hp, outputTypes := LH.outputTypes d, noEmptyTypeName := LH.noEmptyTypeName,
+        possibleOK := LH.possibleOK, subscriptionRoot := LH.subscriptionRoot, valuesShaped := parsed_valuesShaped hp s,
+        constDefaults := parsed_constDefaults hp, typeConds := parsed_typeConds hp, inputPositions := LH.inputPositions,
+        schemaOK := LH.schemaOK, argTypes := LH.argTypes, directiveArgTypes := LH.directiveArgTypes,
+        numLiterals := parsed_numLiteralsOK hp s, leaves := parsed_leavesWellFormed hp s,
+        usePos := parsed_usePosDistinct hp s }
+  · exact
+      { fieldTypesClosed := LH.closed.fieldTypes, hasString := LH.hasString,
+        keys := C08_overlap_keysOK_of_consistent s LH.keys, setStarts := parsed_setStartsNodup hp }
+
+
+/-- a document without subscription operations satisfies `subscriptionsSelectRoot` trivially -/
+theorem C08_subscriptionsSelectRoot_of_no_subscription (s : Schema) (d : QueryDoc)
+    (h : ∀ op ∈ d.ops, op.op ≠ Spec.kwSubscription) : subscriptionsSelectRoot s d = true := by
+  unfold subscriptionsSelectRoot
+  rw [List.all_eq_true]
+  intro op hop
+  simp [h op hop]
+
+/-- **C08, FINAL STATEMENT OVER SOURCE TEXTS, THE WHOLE DEFAULT RULE SET.**  The schema sources `srcs`
+    (the prelude and the user's sources, each with its `BuiltIn` flag) are well-formed UTF-8 and
+    `ParseSchemas` merges them into `sd`; `sd` loads to the schema `s`; the query source `inp` parses
+    (under any token limit `L`) to the document `d`.  Then `validate` with the 27 default rules reports
+    nothing iff all 28 specification predicates hold (`Spec.specValid`).
+    Every parser-shape and loader-invariant side condition is discharged (`C08_hyps_of_sources`), among
+    them the node identity assumption of the OverlappingFieldsCanBeMerged model (`parsed_setStartsNodup`);
+    `Spec.wellParented` and `rootKeysConsistent` are derived on both sides.  Hypotheses left:
+    * `PreludeDeclared sd`: the prelude is among the schema sources (the model contains no prelude text);
+    * `subscriptionsSelectRoot s d`: every subscription operation collects at least one root field.  NOT a
+      consequence of the other rules: `C08_subscription_without_root_field_counterexample` (the rule tests
+      `len(fields) > 1`, §5.2.3.1 demands exactly one entry) — used only in the direction ⇒;
+    * `defaultedLocationsHarmless s d`: the recorded finding about VariablesInAllowedPosition is not triggered
+      (`C08_VariablesInAllowedPosition_counterexample_location_default`) — used only in the direction ⇐. -/
+theorem C08_sources_default_iff_spec {Ls : Nat} {srcs : List (Bool × Bytes)} {sd : SchemaDoc} {s : Schema}
+    (hsrc : ∀ src ∈ srcs, Lexer.Utf8.valid src.2) (hps : Parser.parseSchemas Ls srcs = .ok sd)
+    (hl : load sd = .ok s) (hprel : PreludeDeclared sd)
+    {L : Nat} {inp : Bytes} {d : QueryDoc} (hp : Parser.parseQuery L inp = .ok d)
+    (hsel : subscriptionsSelectRoot s d = true) (hdl : defaultedLocationsHarmless s d = true) :
+    validate defaultRules s d = .ok [] ↔ Spec.specValid s d = true :=
+  have ⟨B, W, ho⟩ := C08_hyps_of_sources hsrc hps hl hprel hp
+  C08_validate_default_iff_spec_base s d B W ho hsel hdl
+
+/-- **no valid request is rejected** (source texts): a request that satisfies every specification
+    predicate passes validation — unless the recorded finding about VariablesInAllowedPosition is triggered
+    (`defaultedLocationsHarmless`) -/
+theorem C08_no_valid_request_rejected {Ls : Nat} {srcs : List (Bool × Bytes)} {sd : SchemaDoc} {s : Schema}
+    (hsrc : ∀ src ∈ srcs, Lexer.Utf8.valid src.2) (hps : Parser.parseSchemas Ls srcs = .ok sd)
+    (hl : load sd = .ok s) (hprel : PreludeDeclared sd)
+    {L : Nat} {inp : Bytes} {d : QueryDoc} (hp : Parser.parseQuery L inp = .ok d)
+    (hdl : defaultedLocationsHarmless s d = true)
+    (hs : Spec.specValid s d = true) : validate defaultRules s d = .ok [] :=
+  have ⟨B, W, ho⟩ := C08_hyps_of_sources hsrc hps hl hprel hp
+  C08_default_rules_complete s d B W ho hdl hs
+
+/-- **no invalid request passes** (source texts): a request that passes validation satisfies every
+    specification predicate — provided its subscriptions collect a root field (`subscriptionsSelectRoot`;
+    without it: `C08_subscription_without_root_field_counterexample`).  `defaultedLocationsHarmless` is NOT
+    needed: the recorded finding only makes the validator reject more. -/
+theorem C08_no_invalid_request_passes {Ls : Nat} {srcs : List (Bool × Bytes)} {sd : SchemaDoc} {s : Schema}
+    (hsrc : ∀ src ∈ srcs, Lexer.Utf8.valid src.2) (hps : Parser.parseSchemas Ls srcs = .ok sd)
+    (hl : load sd = .ok s) (hprel : PreludeDeclared sd)
+    {L : Nat} {inp : Bytes} {d : QueryDoc} (hp : Parser.parseQuery L inp = .ok d)
+    (hsel : subscriptionsSelectRoot s d = true)
+    (hv : validate defaultRules s d = .ok []) : Spec.specValid s d = true :=
+  have ⟨B, W, ho⟩ := C08_hyps_of_sources hsrc hps hl hprel hp
+  C08_default_rules_sound s d B W ho hsel hv
+
+/-- for a request without subscription operations: no invalid request passes, no side condition left
+    but the prelude -/
+theorem C08_no_invalid_request_passes_no_subscription {Ls : Nat} {srcs : List (Bool × Bytes)} {sd : SchemaDoc} {s : Schema}
+    (hsrc : ∀ src ∈ srcs, Lexer.Utf8.valid src.2) (hps : Parser.parseSchemas Ls srcs = .ok sd)
+    (hl : load sd = .ok s) (hprel : PreludeDeclared sd)
+    {L : Nat} {inp : Bytes} {d : QueryDoc} (hp : Parser.parseQuery L inp = .ok d)
+    (hq : ∀ op ∈ d.ops, op.op ≠ Spec.kwSubscription)
+    (hv : validate defaultRules s d = .ok []) : Spec.specValid s d = true :=
+  C08_no_invalid_request_passes hsrc hps hl hprel hp (C08_subscriptionsSelectRoot_of_no_subscription s d hq) hv
+
+end C08Final
+
+#print axioms C08_specValid_iff
+#print axioms C08_rootKeysConsistent_of_merging
+#print axioms C08_subscriptionsSelectRoot_of_spec
+#print axioms C08_subscriptionsSelectRoot_of_no_subscription
+#print axioms C08_default_rules_sound
+#print axioms C08_default_rules_complete
+#print axioms C08_validate_default_iff_spec_base
+#print axioms C08_hyps_of_sources
+#print axioms C08_sources_default_iff_spec
+#print axioms C08_no_valid_request_rejected
+#print axioms C08_no_invalid_request_passes
+#print axioms C08_no_invalid_request_passes_no_subscription
+
+/- non-vacuity of the final statements and the need for the two residual hypotheses, over SOURCE TEXTS
+   (one kernel evaluation of lexer, parsers, loader, specification and rules: `SourceWitness.check_true`):
+   the prelude source `SourceWitness.preludeText` (the five built-in scalars, the four built-in directives, the
+   eight introspection types) and the schema source
+     schema { query: Q subscription: S } interface I { a: Int } type S implements I { a: Int }
+     type O implements I { a: Int } type Q { a: Int f(x: Int): Int g(r: Int! = 5): Int } -/
+section C08FinalWitness
+open Gql Gql.Validate Gql.Validate.Rules Gql.EndToEnd Gql.Load Gql.EndToEnd.SourceWitness
+
+/-- the 27 default rules, each run alone, report nothing ⇒ `validate defaultRules` reports nothing -/
+theorem C08_validate_default_of_silent {s : Schema} {d : QueryDoc} (h : silent s d = true) :
+    validate defaultRules s d = .ok [] := by
+  unfold silent at h
+  rw [C08_all_rules_eq_default] at h ⊢
+  exact (C08_rule_list_silent_iff c08AllRules s d (by decide)).2 fun r hr =>
+    of_decide_eq_true (List.all_eq_true.1 h r hr)
+
+/-- **the hypotheses of `C08_sources_default_iff_spec` are satisfiable together, both sides true**:
+    `query($v: Int) { f(x: $v) ...F } fragment F on Q { a }` -/
+theorem C08_sources_default_iff_spec_witness_valid :
+    (∀ src ∈ srcs, Lexer.Utf8.valid src.2) ∧ Parser.parseSchemas 0 srcs = .ok sdW ∧ load sdW = .ok sW ∧
+    PreludeDeclared sdW ∧ Parser.parseQuery 0 qGood = .ok (docOf qGood) ∧
+    subscriptionsSelectRoot sW (docOf qGood) = true ∧ defaultedLocationsHarmless sW (docOf qGood) = true ∧
+    validate defaultRules sW (docOf qGood) = .ok [] ∧ Spec.specValid sW (docOf qGood) = true :=
+  have O := outcome
+  ⟨O.valid, O.parsed, O.loaded, O.prelude, O.good.1, O.good.2.1, O.good.2.2.1,
+    C08_no_valid_request_rejected O.valid O.parsed O.loaded O.prelude O.good.1 O.good.2.2.1 O.good.2.2.2.1,
+    O.good.2.2.2.1⟩
+
+/-- … both sides false: `query($v: Int) { f(x: $w) ...F } fragment F on Q { a }` -/
+theorem C08_sources_default_iff_spec_witness_invalid :
+    Parser.parseQuery 0 qBad = .ok (docOf qBad) ∧
+    subscriptionsSelectRoot sW (docOf qBad) = true ∧ defaultedLocationsHarmless sW (docOf qBad) = true ∧
+    validate defaultRules sW (docOf qBad) ≠ .ok [] ∧ Spec.specValid sW (docOf qBad) = false :=
+  have O := outcome
+  ⟨O.bad.1, O.bad.2.1, O.bad.2.2.1,
+    fun hv => absurd (C08_no_invalid_request_passes O.valid O.parsed O.loaded O.prelude O.bad.1 O.bad.2.1 hv)
+      (by rw [O.bad.2.2.2.1]; decide),
+    O.bad.2.2.2.1⟩
+
+/-- … a subscription, both sides true: `subscription { ... on I { a } }` -/
+theorem C08_sources_default_iff_spec_witness_subscription :
+    Parser.parseQuery 0 qSubOne = .ok (docOf qSubOne) ∧
+    subscriptionsSelectRoot sW (docOf qSubOne) = true ∧ defaultedLocationsHarmless sW (docOf qSubOne) = true ∧
+    validate defaultRules sW (docOf qSubOne) = .ok [] ∧ Spec.specValid sW (docOf qSubOne) = true :=
+  have O := outcome
+  ⟨O.subOne.1, O.subOne.2.1, O.subOne.2.2.1,
+    C08_no_valid_request_rejected O.valid O.parsed O.loaded O.prelude O.subOne.1 O.subOne.2.2.1 O.subOne.2.2.2.1,
+    O.subOne.2.2.2.1⟩
+
+/-- **`subscriptionsSelectRoot` is needed — FINDING.**  `subscription { ... on I { ... on O { a } } }` against
+    `interface I  type S implements I  type O implements I` with subscription root `S`: both fragment spreads
+    are possible (`S` and `O` are possible types of `I`), `O` does not apply to the root type, so
+    `CollectFields` yields NO root field.  §5.2.3.1 demands exactly one entry (`Spec.singleRootField` fails,
+    hence `Spec.specValid`); the 27 default rules report nothing (SingleFieldSubscriptions tests
+    `len(fields) > 1`).  Every other hypothesis of `C08_sources_default_iff_spec` holds. -/
+theorem C08_subscription_without_root_field_counterexample :
+    (∀ src ∈ srcs, Lexer.Utf8.valid src.2) ∧ Parser.parseSchemas 0 srcs = .ok sdW ∧ load sdW = .ok sW ∧
+    PreludeDeclared sdW ∧ Parser.parseQuery 0 qSubZero = .ok (docOf qSubZero) ∧
+    defaultedLocationsHarmless sW (docOf qSubZero) = true ∧
+    subscriptionsSelectRoot sW (docOf qSubZero) = false ∧
+    validate defaultRules sW (docOf qSubZero) = .ok [] ∧ Spec.specValid sW (docOf qSubZero) = false :=
+  have O := outcome
+  ⟨O.valid, O.parsed, O.loaded, O.prelude, O.subZero.1, O.subZero.2.2.1, O.subZero.2.1,
+    C08_validate_default_of_silent O.subZeroSilent, O.subZero.2.2.2.1⟩
+
+/-- **`defaultedLocationsHarmless` is needed — the recorded finding, over source texts and for the whole
+    rule set.**  `query($v: Int) { g(r: $v) }` against `g(r: Int! = 5): Int`: the specification allows the
+    nullable variable (the location has a default value, §5.8.5), all 28 predicates hold; validation rejects
+    the request (VariablesInAllowedPosition).  Every other hypothesis of `C08_sources_default_iff_spec` holds. -/
+theorem C08_location_default_counterexample_sources :
+    (∀ src ∈ srcs, Lexer.Utf8.valid src.2) ∧ Parser.parseSchemas 0 srcs = .ok sdW ∧ load sdW = .ok sW ∧
+    PreludeDeclared sdW ∧ Parser.parseQuery 0 qLocDefault = .ok (docOf qLocDefault) ∧
+    subscriptionsSelectRoot sW (docOf qLocDefault) = true ∧
+    defaultedLocationsHarmless sW (docOf qLocDefault) = false ∧
+    validate defaultRules sW (docOf qLocDefault) ≠ .ok [] ∧ Spec.specValid sW (docOf qLocDefault) = true := by
+  have O := outcome
+  refine ⟨O.valid, O.parsed, O.loaded, O.prelude, O.locDefault.1, O.locDefault.2.1, O.locDefault.2.2.1, ?_,
+    O.locDefault.2.2.2.1⟩
+  intro hv
+  rw [C08_all_rules_eq_default] at hv
+  have h1 := (C08_rule_list_silent_iff c08AllRules _ _ (by decide)).1 hv variablesInAllowedPosition (by simp [c08AllRules])
+  have h2 := O.locDefault.2.2.2.2
+  rw [decide_eq_false_iff_not] at h2
+  exact h2 h1
+
+end C08FinalWitness
+
+#print axioms C08_sources_default_iff_spec_witness_valid
+#print axioms C08_sources_default_iff_spec_witness_invalid
+#print axioms C08_sources_default_iff_spec_witness_subscription
+#print axioms C08_subscription_without_root_field_counterexample
+#print axioms C08_location_default_counterexample_sources
